@@ -191,3 +191,86 @@ def extract_dispatch_fn(src, name, rel):
     body = src[i:j + 1].replace("ixes.as_slice()", "ixes")
     text = "  pub fn vp_%s(%s) -> MResult<Box<dyn MechFunction>> %s\n" % (name, params, body)
     return text, hashlib.sha256(item.encode()).hexdigest()
+
+
+FEAT_OF = {"R64": "rational", "C64": "complex", "bool": "bool", "String": "string"}
+_CHAIN = re.compile(r'^(?P<ind>\s*)(?P<pre>\.or_else\(\|_\|\s*)?(?P<mac>\w+!)\((?P<args>.*?),\s*(?P<kind>\w+)\s*,\s*"(?P<feat>\w+)"\s*\)(?P<post>\))?\s*$')
+
+
+def cut_kind_chain(text, t):
+    """Cut the `first!(.., u8, "u8").or_else(|_| first!(.., u16, "u16")) ...` chains of an extracted dispatch body down to the
+    attempts for element kind `t`.
+
+    The assign dispatchers try all 16 element kinds in turn; every failed attempt builds a `MechError` (two `Arc<dyn ..>`, a
+    `Vec<ValueKind>`) that the next `or_else` drops.  Attempts for another kind cannot match a sink of kind `t` - each arm
+    pattern names `Value::Matrix<Kind>` - so their only effect is that error value, and ~30 of them per call keep symbolic
+    execution busy beyond any time limit.  Returns (text, number_of_attempts_removed)."""
+    feat = FEAT_OF.get(t, t)
+    out, removed, first = [], 0, True
+    in_chain = False
+    for line in text.split("\n"):
+        m = _CHAIN.match(line.rstrip("\r"))
+        if not m:
+            out.append(line)
+            continue
+        if m.group("feat") != feat:
+            removed += 1
+            continue
+        call = "%s(%s, %s, \"%s\")" % (m.group("mac"), m.group("args"), m.group("kind"), m.group("feat"))
+        if first:
+            out.append("%s%s" % (m.group("ind"), call))
+            first = False
+        else:
+            out.append("%s.or_else(|_| %s)" % (m.group("ind"), call))
+    return "\n".join(out), removed
+
+
+SHAPE_IDENT = {"RD": "RowDVector", "VD": "DVector", "MD": "DMatrix"}
+_LINK = re.compile(r'^\s*(?:\.or_else\(\|_\|\s*)?(?P<mac>impl_\w+)!\((?P<args>.*?)\)\)?\s*$')
+
+
+def direct_arms(text, t, sform, suffix, want=""):
+    """From a kind-cut dispatch body make the variant that invokes the arm macros of ONE arm family directly for ONE storage form.
+
+    `impl_assign_fxn!(OP, NAME, arg, K, "F")` (which tries every storage form in turn, building and dropping a `MechError` per
+    failed attempt) becomes `OP!(NAME, <Shape>, &arg, K, "F")`; links of the or_else chain that belong to another arm family
+    (`*_arms` = index arms, `*_arms_b` / `_bu` / `_ub` = mask arms) are removed, because they cannot match and only build and drop
+    an error value; the trailing `.map_err(..)`, which replaces the error value, is removed.  What remains is exactly the
+    `match` a real call ends up in for a sink of that kind and storage form and an index of that family.  Returns None when the
+    function has no link of the wanted family."""
+    shape = SHAPE_IDENT[sform]
+    i = text.find(".map_err(")
+    if i >= 0:
+        depth, j = 0, i + len(".map_err")
+        while True:
+            ch = text[j]
+            if ch == "(":
+                depth += 1
+            elif ch == ")":
+                depth -= 1
+                if depth == 0:
+                    break
+            j += 1
+        text = text[:i] + text[j + 1:]
+    head, calls, tail = [], [], []
+    for line in text.split("\n"):
+        m = _LINK.match(line.rstrip("\r"))
+        if not m:
+            (tail if calls else head).append(line)
+            continue
+        mac, args = m.group("mac"), [a.strip() for a in m.group("args").split(",")]
+        if mac == "impl_assign_fxn":
+            op = args[0]
+            call = "%s!(%s, %s, &arg, %s, %s)" % (op, args[1], shape, args[3], args[4])
+        else:
+            op = mac
+            call = "%s!(%s)" % (mac, ", ".join(args))
+        fm = re.search(r"_arms(?:_(\w+))?$", op)
+        fam = (fm.group(1) or "") if fm else ""
+        if fam == want:
+            calls.append(call)
+    if not calls:
+        return None
+    body = ["  " + calls[0]] + ["  .or_else(|_| %s)" % c for c in calls[1:]]
+    t2 = "\n".join(head + body + [l for l in tail if l.strip()])
+    return re.sub(r"pub fn (vp_\w+)\(", lambda m_: "pub fn %s_%s(" % (m_.group(1), suffix), t2, count=1) + "\n"
